@@ -117,7 +117,9 @@ func (d *defineBuiltinMethod) defineBuiltinStaticMethod(
 
 	existingT := base.GetClassMethodT(frame, d.targetClass, method, false)
 
-	if existingT != nil {
+	// an overload of this class's own method; a method found through the
+	// Object fallback belongs to another class and is shadowed, not extended
+	if existingT != nil && existingT.DefinedFrame == frame && existingT.DefinedClass == d.targetClass {
 		existingT.Overloads = append(existingT.Overloads, *methodT)
 
 		base.TSignatureArticles =
